@@ -6,7 +6,7 @@ package originium
 // not part of the repository).
 
 import (
-	"container/list"
+	"reflect"
 
 	"github.com/B1NARY-GR0UP/originium/pkg/logger"
 	"github.com/B1NARY-GR0UP/originium/types"
@@ -24,7 +24,7 @@ type VerifLM struct {
 func NewVerifLM(dir string, l0, ratio, block int, withOracle bool) *VerifLM {
 	v := &VerifLM{}
 	if withOracle {
-		v.db = &DB{dir: dir, logger: logger.GetLogger(), immutables: list.New(), oracle: newOracle(),
+		v.db = &DB{dir: dir, logger: logger.GetLogger(), oracle: newOracle(),
 			config: Config{L0TargetNum: l0, LevelRatio: ratio, DataBlockByteThreshold: block}}
 		v.lm = newLevelManager(v.db)
 		v.db.manager = v.lm
@@ -110,11 +110,37 @@ func (db *DB) VerifInMemtable(key string) bool {
 	return ok && types.IsSameKey(k, e.Key)
 }
 
-// VerifShape returns the number of queued immutable memtables and of table handles per level.
+// VerifShape returns the number of queued immutable memtables and of table handles per level. The containers are
+// reached by reflection so that a change of their representation (list, slice) does not break the instrumented build.
 func (db *DB) VerifShape() (imm int, tables []int) {
-	imm = db.immutables.Len()
-	for _, l := range db.manager.levels {
-		tables = append(tables, l.Len())
+	imm = verifLen(reflect.ValueOf(db).Elem().FieldByName("immutables"))
+	lv := reflect.ValueOf(db.manager).Elem().FieldByName("levels")
+	if lv.IsValid() && (lv.Kind() == reflect.Slice || lv.Kind() == reflect.Array) {
+		for i := 0; i < lv.Len(); i++ {
+			tables = append(tables, verifLen(lv.Index(i)))
+		}
 	}
 	return
+}
+
+// verifLen: length of a slice/map/chan, or of a container with a Len field (container/list keeps one).
+func verifLen(v reflect.Value) int {
+	for v.IsValid() && (v.Kind() == reflect.Ptr || v.Kind() == reflect.Interface) {
+		if v.IsNil() {
+			return 0
+		}
+		v = v.Elem()
+	}
+	if !v.IsValid() {
+		return 0
+	}
+	switch v.Kind() {
+	case reflect.Slice, reflect.Map, reflect.Chan, reflect.Array:
+		return v.Len()
+	case reflect.Struct:
+		if f := v.FieldByName("len"); f.IsValid() && f.CanInt() {
+			return int(f.Int())
+		}
+	}
+	return 0
 }
